@@ -1,3 +1,374 @@
 import TT.Model.Pipe
 namespace TT.Pipe
+open TT
+
+def Inv (s : St) : Prop :=
+  match s.phase with
+  | .top => s.delivered ++ s.pending.getD [] = s.readSoFar ∧ s.consumed = s.delivered.length ∧
+      s.metered = s.delivered.length
+  | .gotData d => s.pending = none ∧ s.delivered ++ d = s.readSoFar ∧ s.consumed = s.delivered.length ∧
+      s.metered = s.delivered.length
+  | .wrote sent rest => s.pending = none ∧ s.delivered ++ rest = s.readSoFar ∧
+      s.consumed + sent = s.delivered.length ∧ s.metered + sent = s.delivered.length
+  | .metered sent rest => s.pending = none ∧ s.delivered ++ rest = s.readSoFar ∧
+      s.consumed + sent = s.delivered.length ∧ s.metered = s.delivered.length
+  | .eofing | .flushing | .finished => s.pending = none ∧ s.delivered = s.readSoFar ∧ s.sawEof = true ∧
+      s.consumed = s.delivered.length ∧ s.metered = s.delivered.length
+  | .failed => s.delivered <+: s.readSoFar ∧ s.consumed ≤ s.delivered.length ∧
+      s.metered ≤ s.delivered.length
+
+theorem inv_init : Inv {} := by simp [Inv]
+
+theorem inv_weak {s : St} (h : Inv s) :
+    s.delivered <+: s.readSoFar ∧ s.consumed ≤ s.delivered.length ∧ s.metered ≤ s.delivered.length := by
+  unfold Inv at h
+  split at h
+  · obtain ⟨h1, h2, h3⟩ := h; exact ⟨⟨_, h1⟩, by omega, by omega⟩
+  · obtain ⟨_, h1, h2, h3⟩ := h; exact ⟨⟨_, h1⟩, by omega, by omega⟩
+  · obtain ⟨_, h1, h2, h3⟩ := h; exact ⟨⟨_, h1⟩, by omega, by omega⟩
+  · obtain ⟨_, h1, h2, h3⟩ := h; exact ⟨⟨_, h1⟩, by omega, by omega⟩
+  · obtain ⟨_, h1, _, h2, h3⟩ := h; exact ⟨h1 ▸ List.prefix_refl _, by omega, by omega⟩
+  · obtain ⟨_, h1, _, h2, h3⟩ := h; exact ⟨h1 ▸ List.prefix_refl _, by omega, by omega⟩
+  · obtain ⟨_, h1, _, h2, h3⟩ := h; exact ⟨h1 ▸ List.prefix_refl _, by omega, by omega⟩
+  · exact h
+
+theorem inv_fail {s : St} (h : Inv s) : Inv { s with phase := .failed } := by
+  have := inv_weak h
+  simpa [Inv] using this
+
+theorem inv_feed {s : St} (r : Resp) (h : Inv s) : Inv (feed s r) := by
+  have hf := inv_fail h
+  cases hp : s.phase <;> cases r <;> simp only [feed, hp] <;> try exact hf
+  all_goals simp only [Inv, hp] at h
+  case top.chunk bs =>
+    split
+    · next hn =>
+      simp only [Option.isNone_iff_eq_none] at hn
+      simp [Inv, hn] at h ⊢
+      simp [← h.1, h.2]
+    · exact hf
+  case top.eof =>
+    split
+    · next hn =>
+      simp only [Option.isNone_iff_eq_none] at hn
+      simp [Inv, hn] at h ⊢
+      simp [h]
+    · exact hf
+  case top.unit =>
+    split
+    · next d hd => simp [Inv, hd] at h ⊢; exact h
+    · exact hf
+  case top.timeout => simpa [Inv, hp] using h
+  case gotData.accepted d k =>
+    split
+    · next hk =>
+      obtain ⟨h1, h2, h3, h4⟩ := h
+      simp [Inv, h1, ← h2, List.length_take, Nat.min_eq_left hk]
+      omega
+    · exact hf
+  case wrote.unit sent rest =>
+    obtain ⟨h1, h2, h3, h4⟩ := h
+    simp [Inv, h1, h2]; omega
+  case metered.unit sent rest =>
+    obtain ⟨h1, h2, h3, h4⟩ := h
+    simp [Inv, ← h2]
+    refine ⟨?_, by omega, by omega⟩
+    cases rest <;> simp
+  case eofing.unit => simpa [Inv] using h
+  case flushing.unit => simpa [Inv] using h
+
+theorem run_nil (s : St) : run s [] = s := rfl
+theorem run_cons (s : St) (r : Resp) (rs : List Resp) : run s (r :: rs) = run (feed s r) rs := rfl
+theorem run_append (s : St) (rs rs' : List Resp) : run s (rs ++ rs') = run (run s rs) rs' := by
+  simp [run, List.foldl_append]
+theorem run_snoc (s : St) (rs : List Resp) (r : Resp) : run s (rs ++ [r]) = feed (run s rs) r := by
+  simp [run, List.foldl_append]
+
+theorem inv_run {s : St} (rs : List Resp) (h : Inv s) : Inv (run s rs) := by
+  induction rs generalizing s with
+  | nil => exact h
+  | cons r rs ih => exact ih (inv_feed r h)
+
+theorem inv_reach (rs : List Resp) : Inv (run {} rs) := inv_run rs inv_init
+
+/-! failure is absorbing -/
+
+theorem feed_failed {s : St} (r : Resp) (h : s.phase = .failed) :
+    (feed s r).phase = .failed ∧ (feed s r).delivered = s.delivered := by
+  cases r <;> simp [feed, h]
+
+theorem run_failed {s : St} (rs : List Resp) (h : s.phase = .failed) :
+    (run s rs).phase = .failed ∧ (run s rs).delivered = s.delivered := by
+  induction rs generalizing s with
+  | nil => exact ⟨h, rfl⟩
+  | cons r rs ih =>
+    have := feed_failed r h
+    rw [run_cons]
+    exact ⟨(ih this.1).1, (ih this.1).2.trans this.2⟩
+
+/-! call order -/
+
+theorem calls_after_eof {s : St} (rs : List Resp)
+    (h : s.phase = .flushing ∨ s.phase = .finished ∨ s.phase = .failed) :
+    ∀ c ∈ calls s rs, c = Call.flush := by
+  induction rs generalizing s with
+  | nil => simp [calls]
+  | cons r rs ih =>
+    rcases h with h | h | h
+    · have hn : next s = some .flush := by simp [next, h]
+      simp only [calls, hn]
+      intro c hc
+      rcases List.mem_cons.1 hc with rfl | hc
+      · rfl
+      · refine ih ?_ c hc
+        cases r <;> simp [feed, h]
+    · simp [calls, next, h]
+    · simp [calls, next, h]
+
+theorem calls_split_eof {s : St} (rs : List Resp) (pre post : List Call)
+    (h : calls s rs = pre ++ Call.sinkEof :: post) : ∀ c ∈ post, c = Call.flush := by
+  induction rs generalizing s pre with
+  | nil => simp [calls] at h
+  | cons r rs ih =>
+    simp only [calls] at h
+    split at h
+    · next c hn =>
+      cases pre with
+      | nil =>
+        simp only [List.nil_append, List.cons.injEq] at h
+        obtain ⟨rfl, h⟩ := h
+        have hp : s.phase = .eofing := by
+          simp only [next] at hn
+          split at hn <;> simp_all
+          split at hn <;> simp_all
+        rw [← h]
+        apply calls_after_eof
+        cases r <;> simp [feed, hp]
+      | cons p pre =>
+        simp only [List.cons_append, List.cons.injEq] at h
+        exact ih pre h.2
+    · simp at h
+
+
+/-! ### duplex arbitration -/
+
+theorem drun_nil (d : Duplex) : drun d [] = d := rfl
+theorem drun_cons (d : Duplex) (e : Dir × Resp) (evs) : drun d (e :: evs) = drun (dstep d e.1 e.2) evs := rfl
+theorem drun_append (d : Duplex) (evs evs' : List (Dir × Resp)) :
+    drun d (evs ++ evs') = drun (drun d evs) evs' := by
+  simp [drun, List.foldl_append]
+theorem drun_snoc (d : Duplex) (evs : List (Dir × Resp)) (e : Dir × Resp) :
+    drun d (evs ++ [e]) = dstep (drun d evs) e.1 e.2 := by
+  simp [drun, List.foldl_append]
+
+theorem dstep_decided {d : Duplex} (who : Dir) (r : Resp) (h : d.outcome ≠ .running) : dstep d who r = d := by
+  simp [dstep, h]
+
+theorem drun_decided {d : Duplex} (evs : List (Dir × Resp)) (h : d.outcome ≠ .running) : drun d evs = d := by
+  induction evs with
+  | nil => rfl
+  | cons e evs ih => rw [drun_cons, dstep_decided _ _ h, ih]
+
+/-- the arbitration invariant -/
+def DInv (d : Duplex) : Prop :=
+  (d.outcome = .ok → d.left.phase = .finished ∧ d.right.phase = .finished) ∧
+  (d.outcome = .running → d.left.phase ≠ .failed ∧ d.right.phase ≠ .failed) ∧
+  (∃ l, d.left = run {} l) ∧ (∃ l, d.right = run {} l)
+
+theorem dinv_init : DInv {} := by
+  refine ⟨by simp, by simp, ⟨[], rfl⟩, ⟨[], rfl⟩⟩
+
+theorem dinv_step {d : Duplex} (who : Dir) (r : Resp) (h : DInv d) : DInv (dstep d who r) := by
+  obtain ⟨h1, h2, ⟨ll, h3⟩, ⟨lr, h4⟩⟩ := h
+  unfold dstep
+  split
+  · exact ⟨h1, h2, ⟨ll, h3⟩, ⟨lr, h4⟩⟩
+  next hr =>
+  simp only [bne_iff_ne, ne_eq, Decidable.not_not] at hr
+  have h2 := h2 hr
+  have hL : ∃ l, feed d.left r = run {} l := ⟨ll ++ [r], by rw [run_snoc, ← h3]⟩
+  have hR : ∃ l, feed d.right r = run {} l := ⟨lr ++ [r], by rw [run_snoc, ← h4]⟩
+  cases who <;> simp only
+  all_goals
+    split
+    · exact ⟨h1, fun _ => h2, ⟨ll, h3⟩, ⟨lr, h4⟩⟩
+    split
+    · exact ⟨by simp, by simp, ⟨ll, h3⟩, ⟨lr, h4⟩⟩
+    split
+    · refine ⟨by simp, by simp, ?_, ?_⟩ <;>
+        first | exact ⟨ll, h3⟩ | exact ⟨lr, h4⟩ | exact hL | exact hR
+    next hnf =>
+    simp only [beq_iff_eq] at hnf
+    split
+    · next hfin =>
+      simp only [Bool.and_eq_true, beq_iff_eq] at hfin
+      refine ⟨fun _ => hfin, by simp, ?_, ?_⟩ <;>
+        first | exact ⟨ll, h3⟩ | exact ⟨lr, h4⟩ | exact hL | exact hR
+    · refine ⟨by simp [hr], fun _ => ?_, ?_, ?_⟩
+      · first | exact ⟨hnf, h2.2⟩ | exact ⟨h2.1, hnf⟩
+      all_goals first | exact ⟨ll, h3⟩ | exact ⟨lr, h4⟩ | exact hL | exact hR
+
+theorem dinv_run {d : Duplex} (evs : List (Dir × Resp)) (h : DInv d) : DInv (drun d evs) := by
+  induction evs generalizing d with
+  | nil => exact h
+  | cons e evs ih => exact ih (dinv_step e.1 e.2 h)
+
+theorem dinv_reach (evs : List (Dir × Resp)) : DInv (drun {} evs) := dinv_run evs dinv_init
+
+
+/-! ### idle timer -/
+
+/-- `Timer.WF` of the property file, unfolded -/
+def WFt (tm : Timer) : Prop := tm.laL ≤ tm.sL ∧ tm.laR ≤ tm.sR ∧ 0 < tm.T
+
+/-- `Adm` of the property file -/
+def AdmAll : Timer → List TEv → Prop
+  | _, [] => True
+  | tm, e :: es => admissible tm e = true ∧ AdmAll (tstep tm e) es
+
+theorem trun_nil (tm : Timer) : trun tm [] = tm := rfl
+theorem trun_cons (tm : Timer) (e : TEv) (es : List TEv) : trun tm (e :: es) = trun (tstep tm e) es := rfl
+theorem trun_append (tm : Timer) (es es' : List TEv) : trun tm (es ++ es') = trun (trun tm es) es' := by
+  simp [trun, List.foldl_append]
+
+theorem tstep_expired {tm : Timer} (e : TEv) (h : tm.expired.isSome = true) : tstep tm e = tm := by
+  simp [tstep, h]
+
+theorem trun_expired {tm : Timer} (es : List TEv) (h : tm.expired.isSome = true) : trun tm es = tm := by
+  induction es with
+  | nil => rfl
+  | cons e es ih => rw [trun_cons, tstep_expired e h, ih]
+
+theorem tstep_T (tm : Timer) (e : TEv) : (tstep tm e).T = tm.T := by
+  unfold tstep
+  split
+  · rfl
+  · rcases e with ⟨_ | _, t⟩ | ⟨_ | _⟩ <;> simp only <;> first | rfl | (split <;> rfl)
+
+theorem wft_step {tm : Timer} {e : TEv} (h : WFt tm) (ha : admissible tm e = true) : WFt (tstep tm e) := by
+  obtain ⟨h1, h2, h3⟩ := h
+  unfold tstep
+  split
+  · exact ⟨h1, h2, h3⟩
+  · rcases e with ⟨_ | _, t⟩ | ⟨_ | _⟩ <;> simp only
+    · exact ⟨Nat.le_refl _, h2, h3⟩
+    · exact ⟨h1, Nat.le_refl _, h3⟩
+    all_goals
+      simp [admissible] at ha
+      split
+      · exact ⟨h1, h2, h3⟩
+      · simp only [WFt]; omega
+
+/-- one admissible step from an open state: either the state stays open, the `last_activity`
+marks only grow (and a `progress` sets its direction's mark), or the step is a `fire` that closes
+the tunnel strictly more than `T` after both marks -/
+theorem tstep_open {tm : Timer} {e : TEv} (h0 : tm.expired = none) (hw : WFt tm)
+    (ha : admissible tm e = true) :
+    ((tstep tm e).expired = none ∧ tm.laL ≤ (tstep tm e).laL ∧ tm.laR ≤ (tstep tm e).laR ∧
+      (∀ t, e = .progress .left t → (tstep tm e).laL = t) ∧
+      (∀ t, e = .progress .right t → (tstep tm e).laR = t)) ∨
+    (∃ c, (tstep tm e).expired = some c ∧ tm.laL + tm.T < c ∧ tm.laR + tm.T < c ∧
+      ∀ d t, e ≠ .progress d t) := by
+  obtain ⟨h1, h2, h3⟩ := hw
+  cases e with
+  | progress d t =>
+    left
+    cases d <;> simp [admissible] at ha <;> simp [tstep, h0] <;> omega
+  | fire d =>
+    cases d <;> simp only [tstep, h0, Option.isSome_none, Bool.false_eq_true, ↓reduceIte]
+    all_goals
+      split
+      · next hc =>
+        right
+        simp only [Bool.and_eq_true, decide_eq_true_eq] at hc
+        exact ⟨_, rfl, hc.1, hc.2, by simp⟩
+      · left
+        simp
+
+theorem expiry_after_marks {tm : Timer} (es : List TEv) (h0 : tm.expired = none) (hw : WFt tm)
+    (ha : AdmAll tm es) (c : Nat) (hc : (trun tm es).expired = some c) :
+    tm.laL + tm.T < c ∧ tm.laR + tm.T < c := by
+  induction es generalizing tm with
+  | nil => simp [trun_nil, h0] at hc
+  | cons e es ih =>
+    obtain ⟨ha1, ha2⟩ := ha
+    rw [trun_cons] at hc
+    rcases tstep_open h0 hw ha1 with ⟨hn, hl, hr, -, -⟩ | ⟨c', he, hl, hr, -⟩
+    · have := ih hn (wft_step hw ha1) ha2 hc
+      rw [tstep_T] at this
+      omega
+    · rw [trun_expired _ (by simp [he]), he] at hc
+      cases hc
+      exact ⟨hl, hr⟩
+
+/-- corrected form of "never early": every transfer recorded while the tunnel was still open
+happened more than `T` before the closing time -/
+theorem progress_before_expiry {tm : Timer} (es es' : List TEv) (h0 : tm.expired = none) (hw : WFt tm)
+    (ha : AdmAll tm (es ++ es')) (hopen : (trun tm es).expired = none)
+    (c : Nat) (hc : (trun tm (es ++ es')).expired = some c) :
+    ∀ d t, TEv.progress d t ∈ es → t + tm.T < c := by
+  induction es generalizing tm with
+  | nil => simp
+  | cons e es ih =>
+    obtain ⟨ha1, ha2⟩ := ha
+    rw [List.cons_append, trun_cons] at hc
+    rw [trun_cons] at hopen
+    rcases tstep_open h0 hw ha1 with ⟨hn, -, -, hpl, hpr⟩ | ⟨c', he, -⟩
+    · intro d t hm
+      rcases List.mem_cons.1 hm with rfl | hm
+      · have := expiry_after_marks _ hn (wft_step hw ha1) ha2 c hc
+        rw [tstep_T] at this
+        cases d
+        · rw [hpl t rfl] at this; exact this.1
+        · rw [hpr t rfl] at this; exact this.2
+      · have := ih hn (wft_step hw ha1) ha2 hopen hc d t hm
+        rwa [tstep_T] at this
+    · rw [trun_expired _ (by simp [he]), he] at hopen
+      cases hopen
+
+
+/-- one idle firing, fully spelled out -/
+theorem idle_step (tm : Timer) (h0 : tm.expired = none) :
+    tstep tm (idleFire tm) =
+      (let c := min tm.sL tm.sR + tm.T
+       if tm.laL + tm.T < c ∧ tm.laR + tm.T < c then { tm with expired := some c }
+       else { tm with sL := c, sR := c }) := by
+  unfold idleFire
+  by_cases h : tm.sL ≤ tm.sR
+  · simp [tstep, h0, h, Nat.min_eq_left h]
+  · have h' : tm.sR ≤ tm.sL := by omega
+    simp [tstep, h0, h, Nat.min_eq_right h']
+
+theorem idle_bound (tm : Timer) (a : Nat) (h0 : tm.expired = none)
+    (hw : tm.laL ≤ tm.sL ∧ tm.laR ≤ tm.sR ∧ 0 < tm.T)
+    (ha : a = max tm.laL tm.laR)
+    (hs : tm.sL ≤ a ∧ tm.sR ≤ a ∧ a ≤ tm.sL + tm.T ∧ a ≤ tm.sR + tm.T) :
+    ∃ n c, n ≤ 3 ∧ (idleRun n tm).expired = some c ∧ a + tm.T < c ∧ c ≤ a + 2 * tm.T := by
+  obtain ⟨w1, w2, w3⟩ := hw
+  obtain ⟨s1, s2, s3, s4⟩ := hs
+  have hm1 : min tm.sL tm.sR ≤ a := by omega
+  have hm2 : a ≤ min tm.sL tm.sR + tm.T := by omega
+  have hla : tm.laL ≤ a ∧ tm.laR ≤ a ∧ (tm.laL = a ∨ tm.laR = a) := by omega
+  generalize hm : min tm.sL tm.sR = m at hm1 hm2
+  -- the first firing never closes: it happens at `m + T ≤ a + T`
+  have e1 : tstep tm (idleFire tm) = { tm with sL := m + tm.T, sR := m + tm.T } := by
+    rw [idle_step tm h0, hm]
+    simp only
+    rw [if_neg (by omega)]
+  by_cases hlt : a < m + tm.T
+  · refine ⟨2, m + tm.T + tm.T, by omega, ?_, by omega, by omega⟩
+    simp only [idleRun, e1]
+    rw [idle_step { tm with sL := m + tm.T, sR := m + tm.T } h0]
+    simp only [Nat.min_self]
+    rw [if_pos (by omega)]
+  · have hme : m + tm.T = a := by omega
+    refine ⟨3, a + tm.T + tm.T, by omega, ?_, by omega, by omega⟩
+    simp only [idleRun, e1, hme]
+    rw [idle_step { tm with sL := a, sR := a } h0]
+    simp only [Nat.min_self]
+    rw [if_neg (by omega)]
+    rw [idle_step { tm with sL := a + tm.T, sR := a + tm.T } h0]
+    simp only [Nat.min_self]
+    rw [if_pos (by omega)]
+
 end TT.Pipe
